@@ -37,6 +37,7 @@ func init() {
 			{Name: "parse", Race: true, Run: runParse, Replay: replayParse},
 			{Name: "stream", Race: true, Run: runStream},
 			{Name: "config", Race: true, Run: runConfig, Replay: replayConfig},
+			{Name: "burst", Race: true, Run: runBurst},
 			{Name: "fuzz", Run: runFuzz, Replay: replayFuzz, QuickTimeoutS: 1200},
 			{Name: "session", Race: true, Run: func(c *core.Ctx, r *core.Result) { runSession(c, r) }, Replay: func(c *core.Ctx, r *core.Result, raw []byte) { replaySession(c, r, raw) }},
 		},
